@@ -96,6 +96,13 @@ fn apply(s: &mut Subject<Ep>, c: &Value) {
             let segs: Vec<Vec<u8>> = match c.get("segs") { Some(x) => x.as_array().unwrap().iter().map(vbytes).collect(), None => segs_of(c["p"].as_str().unwrap()) };
             s.deregister(&noisy_registration(c["ep"].as_str().unwrap(), &vbytes(&c["tok"]), &segs))
         }
+        "changed_many" => {
+            // n non-confirmable rounds with one message id, performed but recorded as one event
+            let (p, mid) = (c["p"].as_str().unwrap(), c["mid"].as_u64().unwrap() as u16);
+            for _ in 0..c["n"].as_u64().unwrap() {
+                s.resource_changed(p, mid, false);
+            }
+        }
         "changed" => s.resource_changed(c["p"].as_str().unwrap(), c["mid"].as_u64().unwrap() as u16, c["con"].as_bool().unwrap()),
         "ack" => {
             s.acknowledge(&noisy_ack(c["ep"].as_str().unwrap(), c["mid"].as_u64().unwrap() as u16))
@@ -239,6 +246,26 @@ pub fn rec_observe(args: &Args) {
                 ev(&mut out, &mut s, json!({"op": "ack", "ep": "e2", "mid": (k % 60000) as u64}), &one);
             }
         }
+    }
+    // counters after very many rounds: a run of n non-confirmable rounds is performed in full but recorded
+    // as one event (Observe!ChangedMany is its closed form), single rounds are recorded around each mark
+    let marks: Vec<u64> = if thorough { vec![255, 65535, (1 << 24) - 1, (1 << 24) + 70000] } else { vec![255, 65535, (1 << 24) - 1] };
+    out.ev(json!({"op": "reset"}));
+    let mut s: Subject<Ep> = Subject::default();
+    ev(&mut out, &mut s, json!({"op": "register", "ep": "e1", "tok": [1], "p": "t"}), &one);
+    ev(&mut out, &mut s, json!({"op": "register", "ep": "e2", "tok": [2, 3], "p": "t"}), &one);
+    ev(&mut out, &mut s, json!({"op": "changed", "p": "t", "mid": 5, "con": true}), &one);
+    let mut done: u64 = 1;
+    for m in marks {
+        let n = m - 2 - done;
+        ev(&mut out, &mut s, json!({"op": "changed_many", "p": "t", "mid": 9, "n": n}), &one);
+        done += n;
+        for k in 0..4u64 {
+            ev(&mut out, &mut s, json!({"op": "changed", "p": "t", "mid": 10 + k, "con": k == 3}), &one);
+            done += 1;
+        }
+        ev(&mut out, &mut s, json!({"op": "ack", "ep": "e1", "mid": 13}), &one);
+        ev(&mut out, &mut s, json!({"op": "ack", "ep": "e2", "mid": 13}), &one);
     }
     // notification builder
     let seqs: [u64; 14] = [0, 1, 255, 256, 65535, 65536, (1 << 24) - 1, 1 << 24, (1 << 31) - 1, 1 << 31, (1u64 << 32) - 1, 12345, 0x00FF00, 0x01000001];
